@@ -54,6 +54,8 @@ case_strategy = st.fixed_dictionaries({
     "rerun": st.sampled_from(["none", "inproc", "inproc", "fresh"]),
     "table": st.sampled_from([None, None, "csv", "fits", "vot"]),
     "cli": st.sampled_from([False, False, True]),
+    # distance (deg) of the image from the reference point of its projection (0 = reference pixel on the image)
+    "far": st.sampled_from([0, 0, 0, 5.0, 12.0, 25.0]),
 })
 
 
@@ -296,6 +298,8 @@ def check_case(c):
     if c["field"]["noise"] == "white" and c["field"]["size_max"] > 1.5:
         # runtime only: pixel-scale noise on a broad faint source makes one summit per noise peak (tens of components)
         c = dict(c, field=dict(c["field"], size_max=1.5))
+    if c.get("far"):
+        c = dict(c, field=dict(c["field"], far=c["far"]))
     F = fields.build_field(c["field"])
     what = "%s (noise=%s, %d truth sources, islandflux=%s max_summits=%s stage=%d regroup=%s)" % (
         c["mode"], c["field"]["noise"], len(F["truth"]), c["islandflux"], c["max_summits"], c["stage"], c["regroup"])
